@@ -1806,8 +1806,6 @@ class Executor:
             st.decisions.append(('b', d))
             self._idecs().append(d)
             return d
-        if self.nofork:
-            raise MachineryError('symbolic branch inside a synchronous model call')
         st.symbranches += 1
         m = self.ensure_model()
         v = 1 if z3.is_true(m.eval(c, model_completion=True)) else 0
@@ -1821,6 +1819,8 @@ class Executor:
             self.learn(cs, v)
             return v
         # both feasible: fork
+        if self.nofork:
+            raise MachineryError('symbolic branch with two feasible sides inside a synchronous model call')
         if self._splitting():
             self.prefixes.append(st.decisions + [('b', v)])
             self.prefixes.append(st.decisions + [('b', 1 - v)])
